@@ -26,6 +26,9 @@ Init0(size, lay) ==
      buf |-> "no",      \* setvbuf mode
      pend |-> FALSE,    \* written bytes may still sit in the stream buffer
      nw |-> 0,          \* number of writes so far = tag of the next payload
+     bsz |-> 0,         \* setvbuf size argument (0 = omitted); no effect on results, kept so that
+                        \* generated histories distinguish small stream buffers
+     tmp |-> FALSE,     \* the handle came from io.tmpfile(): the file has no path
      it |-> "none"]     \* kept lines() iterator: none | cur (current handle) | old (an earlier handle)
 
 (* ---- sparse content ------------------------------------------------------ *)
@@ -133,7 +136,8 @@ DoOpen(st, m) ==
                       !.ov = IF TruncM(m) THEN <<>> ELSE @,
                       !.opened = TRUE, !.mode = m, !.closed = FALSE,
                       !.cur = IF AppendM(m) THEN -1 ELSE 0,
-                      !.last = "none", !.buf = "no", !.pend = FALSE,
+                      !.last = "none", !.buf = "no", !.bsz = 0, !.pend = FALSE,
+                      !.tmp = (m = "tmp"),
                       !.it = IF @ = "cur" THEN "old" ELSE @],
            <<"ok">>)
 
@@ -187,7 +191,7 @@ Apply0(st, o) ==
            [] o.op = "write" -> DoWrite(st, o.n)
            [] o.op = "seek" -> DoSeek(st, o.a, o.n)
            [] o.op = "flush" -> R([st EXCEPT !.last = "none", !.pend = FALSE], <<"ok">>)
-           [] o.op = "setvbuf" -> R([st EXCEPT !.buf = o.a], <<"ok">>)
+           [] o.op = "setvbuf" -> R([st EXCEPT !.buf = o.a, !.bsz = o.n], <<"ok">>)
            [] o.op = "close" -> R([st EXCEPT !.closed = TRUE, !.last = "none", !.pend = FALSE], <<"ok">>)
 
 (***************************************************************************)
@@ -202,8 +206,8 @@ Apply0(st, o) ==
 Apply(st, o) == Apply0(st, NormOp(o))
 
 Legal0(st, o) ==
-    IF o.op = "open" THEN ~st.opened \/ st.closed
-    ELSE IF o.op = "peek" THEN st.ex /\ ~st.pend
+    IF o.op = "open" THEN (~st.opened \/ st.closed) /\ ~st.tmp     \* after a tmpfile the path file is out of the model
+    ELSE IF o.op = "peek" THEN st.ex /\ ~st.pend /\ ~st.tmp         \* an anonymous file cannot be opened a second time
     ELSE IF o.op = "calliter" THEN
          /\ st.it # "none"
          /\ (st.it = "old" \/ st.closed \/ (st.last # "write" /\ st.cur # -1))
@@ -225,9 +229,8 @@ Legal(st, o) == Legal0(st, NormOp(o))
    name the case when the real code disagrees) *)
 StepRec(st, o, e) ==
     [op |-> o.op, a |-> o.a, n |-> o.n, tag |-> st.nw, exp |-> e,
-     pre |-> [cur |-> st.cur, len |-> st.len, last |-> st.last, pend |-> st.pend,
-              buf |-> st.buf, closed |-> st.closed, mode |-> st.mode, it |-> st.it]]
+     pre |-> [closed |-> st.closed, mode |-> st.mode, pend |-> st.pend]]
 
 (* the file on disk once the handle is closed *)
-Final(st) == IF st.ex THEN Data(st, 0, st.len) ELSE <<"absent">>
+Final(st) == IF st.tmp THEN <<"skip">> ELSE IF st.ex THEN Data(st, 0, st.len) ELSE <<"absent">>
 =============================================================================
